@@ -22,11 +22,16 @@ REQUIRED = {t: {"shape_bare": 20, "shape_1": 20, "shape_2": 20, "shape_3+": 20, 
 
 def gen_cases(tier, seed):
     n = 400 if tier == "quick" else 40000
-    return [{"seed": seed * 100103 + i, "nmax": 40 if tier == "quick" or i % 10 else 300} for i in range(n)]
+    cases = [{"seed": seed * 100103 + i, "nmax": 40 if tier == "quick" or i % 10 else 300} for i in range(n)]
+    if tier == "thorough":
+        cases.append({"kind": "repo-tests", "seed": seed, "_cost": 500})
+    return cases
 
 
 def run_case(case):
-    res = c01.run_case(case, oracles=("columns",), custom_share=0.5, force_special=True)
+    res = c01.run_case(case, oracles=("columns",), custom_share=0.5, force_special=True, ID=ID)
+    if case.get("kind") == "repo-tests":
+        return res
     shapes = getattr(res, "extra_shapes", set())
     res.nontrivial = res.counters.get("motif_instances", 0) >= 0 and len(shapes) >= 2
     return res
